@@ -54,6 +54,7 @@ REQUIRED_THEOREMS = [
     "Acn.C19.eventCore_history_wellFormed", "Acn.C19.end_to_end", "Acn.C19.end_to_end_properties",
     "Acn.C19.end_to_end_ledger_partial", "Acn.C19.end_to_end_sim", "Acn.C19.end_to_end_sim_properties",
     "Acn.C19.end_to_end_sim_energy", "Acn.C19.no_starvation_behind_satisfied", "Acn.C19.end_to_end_sim_abort",
+    "Acn.C19.end_to_end_sim_abort_energy",
 ]
 BUDGET = {"quick": 2000, "thorough": 15000, "search": 12000}
 TRUSTED = ["heapq: in the history-level model the order among equal keys is taken from the implementation's own "
